@@ -284,7 +284,7 @@ def run(ctx):
     ]
     for c in corpus:
         c["dgms"] = [[[float(x) for x in b] for b in D] for D in c["dgms"]]
-    n = ctx.n(2500, 30000)
+    n = ctx.n(4000, 20000)
     nmax = ctx.n(9, 40)
     cases = corpus + [gen_case(ctx, nmax) for _ in range(n)]
 
@@ -305,9 +305,20 @@ def run(ctx):
     answers = ask(lines)
     ctx.extra["anchored_line_coverage"] = cov.summary()
 
+    # rounding edge: on non-dyadic input the code's rounded midpoints can coincide (abscissae equal in floats) or miss
+    # eps; then the verdict is taken in two steps: the model's exact output is certified with eps = 0 and the code's
+    # output must agree with the model's point by point within eps
+    second = [i for i, (c, bars, st, out, fired, eps) in enumerate(rows)
+              if eps > 0 and st == "ok" and isinstance(answers[2 * i + 1], list) and not answers[2 * i + 1][0]
+              and isinstance(answers[2 * i], list) and same_cps(out, answers[2 * i][0], eps)]
+    second_ans = dict(zip(second, ask(["pl.certify 0 %s %s" % (enc(rows[i][1]), enc(answers[2 * i][0])) for i in second])))
+
     programs = disagreements = fired_cases = fired_wrong = 0
     for i, (c, bars, st, out, fired, eps) in enumerate(rows):
         model, cert = answers[2 * i], answers[2 * i + 1]
+        if i in second_ans and second_ans[i][0]:
+            ctx.count("rounding_edge_certified_via_model")
+            cert = [True]
         cls = classify(bars)
         ctx.case({"hom_deg": c["hom_deg"], "dgms": c["dgms"]}, nontrivial=len(bars) >= 2, sample_every=401)
         ctx.count("mode:" + c["mode"]); ctx.count("gen_class:" + c["class"]); ctx.count("bars:%d" % min(len(bars), 41))
